@@ -541,6 +541,13 @@ def path_exprs(func_node, pick, max_paths=256):
             if isinstance(st, ast.Try):
                 run(list(st.body) + list(st.orelse) + list(st.finalbody) + list(stmts[i + 1:]), conds, env)
                 return
+            if isinstance(st, (ast.For, ast.While)) and _sum_loop(st, env) is None and any(isinstance(x, (ast.If, ast.Return)) or pick(x) for b in st.body for x in ast.walk(b) if isinstance(x, ast.stmt)):
+                # a loop body is read as if it ran once, after the statements before it (its loop variables stay symbolic)
+                for t in ast.walk(st.target) if isinstance(st, ast.For) else []:
+                    if isinstance(t, ast.Name):
+                        env.pop(t.id, None)
+                run(list(st.body) + list(stmts[i + 1:]), conds, env)
+                return
             env = straight_line_env([st], None, env)
 
     run(list(func_node.body), [], {})
